@@ -8,28 +8,4 @@ impl VKey for Id {
     type K = Seq<char>;
     open spec fn vkey(&self) -> Seq<char> { self.lower_case@ }
 }
-#[verifier::external_body]
-#[verifier::reject_recursive_types(K)]
-#[verifier::reject_recursive_types(V)]
-pub struct HashMap<K, V> { _k: std::marker::PhantomData<K>, _v: std::marker::PhantomData<V> }
-impl<K: VKey, V> HashMap<K, V> {
-    pub uninterp spec fn view(&self) -> Map<K::K, V>;
-    #[verifier::external_body]
-    pub fn new() -> (r: Self) ensures r@ == Map::<K::K, V>::empty() { unimplemented!() }
-    #[verifier::external_body]
-    pub fn get(&self, k: &K) -> (r: Option<&V>)
-        ensures match r { Some(v) => self@.contains_key(k.vkey()) && *v == self@[k.vkey()], None => !self@.contains_key(k.vkey()) }
-    { unimplemented!() }
-    #[verifier::external_body]
-    pub fn contains_key(&self, k: &K) -> (r: bool) ensures r == self@.contains_key(k.vkey()) { unimplemented!() }
-    #[verifier::external_body]
-    pub fn insert(&mut self, k: K, v: V) -> (r: Option<V>)
-        ensures final(self)@ == old(self)@.insert(k.vkey(), v),
-            match r { Some(p) => old(self)@.contains_key(k.vkey()) && p == old(self)@[k.vkey()], None => !old(self)@.contains_key(k.vkey()) }
-    { unimplemented!() }
-    #[verifier::external_body]
-    pub fn remove(&mut self, k: &K) -> (r: Option<V>)
-        ensures final(self)@ == old(self)@.remove(k.vkey()),
-            match r { Some(p) => old(self)@.contains_key(k.vkey()) && p == old(self)@[k.vkey()], None => !old(self)@.contains_key(k.vkey()) }
-    { unimplemented!() }
-}
+//@include prelude/hashmap_generic.rs
